@@ -72,6 +72,10 @@ def response_def(draw, dialect, components):
         hs, hw = {}, {}
         for name in draw(st.lists(st.sampled_from(HEADER_NAMES), max_size=2, unique=True)):
             s, w = draw(sg.schema(dialect, 0, kinds=("integer", "string", "boolean", "number"), allow_wrappers=False))
+            if draw(st.integers(0, 2)) == 0:
+                # formats of the JSON Schema format checker that older drafts' own checkers do not know
+                fmt, w = draw(st.sampled_from([("uuid", "123e4567-e89b-12d3-a456-426614174000"), ("date", "2024-02-29"), ("time", "12:00:00Z"), ("duration", "P1D"), ("date-time", "2024-02-29T12:00:00Z"), ("ipv4", "10.0.0.1")]))
+                s = {"type": "string", "format": fmt}
             if dialect == "2.0":
                 h = dict(s)
                 if draw(st.booleans()):
@@ -121,6 +125,8 @@ def _bad_header_value(draw, schema):
         return draw(st.sampled_from(["abc", "1e", "0x10"]))
     if t == "boolean":
         return draw(st.sampled_from(["maybe", "2", "truthy"]))
+    if "format" in schema:
+        return draw(st.sampled_from(["not-a-" + schema["format"], "2024-13-45", "zz"]))
     return draw(st.sampled_from(["~not~valid~", "zzzzzzzzzzzzzzzzzzzzzzzzz", ""]))
 
 
@@ -203,6 +209,14 @@ def pair(draw):
     else:
         headers["Content-Type"] = "application/json"
     inp.update(status=status, headers=headers, body=body)
+    # a second response validated afterwards on the same loaded schema: same status, another documented media type
+    if key is not None and dialect != "2.0":
+        others = [m for m in _deref(responses[key], inp).get("content", {}) if "*" not in m and m != headers.get("Content-Type")]
+        if others and draw(st.booleans()):
+            m2 = draw(st.sampled_from(others))
+            mode2 = draw(st.sampled_from(["witness", "witness", "junk"]))
+            body2 = json.dumps(wit[key][m2]) if mode2 == "witness" and m2 in wit[key] else json.dumps(draw(st.sampled_from([None, 1, "x", [], {}, {"a": 1}])))
+            inp["second"] = {"headers": {**{k: v for k, v in headers.items() if k != "Content-Type"}, "Content-Type": m2}, "body": body2}
     return inp
 
 
@@ -423,6 +437,32 @@ def check_pair(ctx: Ctx, inp) -> None:
     d = _deref(responses[key], inp) if key is not None else {}
     nmedia = len(d.get("content", {})) if inp["dialect"] != "2.0" else len(inp.get("produces") or inp.get("global_produces") or [])
     nontrivial = key is not None and (len(responses) >= 2 or nmedia >= 2 or sel == "range" or any("*" in m for m in d.get("content", {})))
+    # a second, different response for the same status (another documented media type) on the same objects
+    second = inp.get("second")
+    if second:
+        inp2 = {k: v for k, v in inp.items() if k != "second"}
+        inp2.update(headers=second["headers"], body=second["body"])
+        resp2 = Response(status_code=inp["status"], headers={k: [v] for k, v in second["headers"].items()}, content=second["body"].encode("utf-8"), request=req, elapsed=0.1, verify=False)
+        exp2, _ = oracle(inp2)
+        # order: first the main response, then the second one
+        try:
+            case.validate_response(resp, checks=[oc.response_schema_conformance])
+        except (FailureGroup, Exception):  # noqa: BLE001 - judged below
+            pass
+        try:
+            case.validate_response(resp2, checks=[oc.response_schema_conformance])
+            got2 = False
+        except FailureGroup:
+            got2 = True
+        except Exception as exc:  # noqa: BLE001
+            got2 = f"crash:{type(exc).__name__}"
+        ctx.classes["second-response-on-the-same-schema"] += 1
+        if exp2["response_schema_conformance"] is not None and got2 != exp2["response_schema_conformance"]:
+            direction = got2 if isinstance(got2, str) else "false-alarm" if got2 else "missed-deviation"
+            sig2 = signature("response_schema_conformance", direction, inp2, sel, key, d)
+            if sig2 not in ctx.known_sigs:
+                sig2 += ":after-another-media-type-on-the-same-schema"
+            ctx.disagree(sig2, f"response_schema_conformance for a second response ({second['headers'].get('Content-Type')}) validated after the first ({inp['headers'].get('Content-Type')}): implementation reports={got2}, documentation says deviates={exp2['response_schema_conformance']}", input=inp)
     # two passes over the same loaded schema / operation objects: a verdict must not depend on what was validated before
     for round_ in (1, 2):
         for name in _CHECKS:
